@@ -866,3 +866,16 @@ m('F13-repeat-counts-prefix-leaves', 'C09', 'F13', 'tree_broadcast_prefix/replic
             namespace=namespace,
         )
         return subtreespec.unflatten(itertools.repeat(x, subtreespec.num_nodes))""")
+m('W3-transform-callbacks-by-wrong-kind', 'C08', 'W3', 'Transform/callback-by-kind', 'src/treespec/treespec.cpp',
+  """        const auto& func = (node.kind == PyTreeKind::Leaf ? f_leaf : f_node);""",
+  """        const auto& func = (node.kind != PyTreeKind::Leaf ? f_leaf : f_node);""")
+m('W3-transform-accepts-deep-replacement', 'C08', 'W3', 'Transform/one-level', 'src/treespec/treespec.cpp',
+  """            if (transformed->GetNumNodes() != node.arity + 1) [[unlikely]] {
+                std::ostringstream oss{};
+                oss << "Expected the PyTreeSpec transform function returns an one-level PyTreeSpec "
+                       "as the input, got "
+                    << transformed->ToString() << " (input: " << GetOneLevel(node)->ToString()
+                    << ").";
+                throw py::value_error(oss.str());
+            }
+""", "")
